@@ -326,3 +326,31 @@ def R_clock(toks):
         out.append(toks[i]); i += 1
     if n != 1: raise ScanError(f"R-clock: expected exactly one wall-clock read, found {n}")
     return out, n
+
+def R_forcontinue(toks):
+    """inside a `for` body, a leading `if COND { continue; } REST…` becomes `if COND { } else { REST… }` (same control flow;
+    Verus 0.2026.09.13 does not support `continue` in for-loops)."""
+    out = list(toks); n = 0; i = 0
+    while i < len(out):
+        t = out[i]
+        if t.kind == "ident" and t.text == "for" and not (i + 1 < len(out) and out[i+1].text == "<"):
+            j = i + 1
+            while j < len(out):
+                u = out[j]
+                if u.kind == "punct" and u.text in OPEN:
+                    if u.text == "{": break
+                    j = match_close(out, j) + 1; continue
+                j += 1
+            bo = j; bc = match_close(out, bo)
+            k = bo + 1
+            if out[k].text == "if":
+                m = k + 1
+                while out[m].text != "{":
+                    m = match_close(out, m) + 1 if out[m].text in OPEN else m + 1
+                me = match_close(out, m)
+                if [x.text for x in out[m+1:me]] == ["continue", ";"]:
+                    # delete `continue;`, wrap the rest of the body in else { }
+                    new = out[:m+1] + [out[me]] + _mk(["else", "{"], out[me], " ") + out[me+1:bc] + _mk(["}"], out[bc], " ") + out[bc:]
+                    out = new; n += 1
+        i += 1
+    return out, n
